@@ -56,7 +56,7 @@ def _key(prop, verdict, ctx):
 def c02(pid, tier, seed, scratch):
     bindir = C.build()
     X.ensure_shim()
-    n_hist, ops, limit = (5, 12, 220) if tier == "quick" else (40, 30, None)
+    n_hist, ops, limit = (6, 12, 220) if tier == "quick" else (40, 30, None)
     rep = _report("crash-images[process-crash]", seed,
                   "histories of create/put (text, chunked text, binary incl. log-growing sizes)/update/delete/commit/apply_ticket/vacuum/reopen run under the "
                   "LD_PRELOAD recorder; the state after every mutating file-system call (completed calls persist) is an image; each distinct image is opened "
@@ -69,13 +69,17 @@ def c02(pid, tier, seed, scratch):
         wd = os.path.join(scratch, f"h{h}")
         os.makedirs(wd, exist_ok=True)
         hseed = seed * 1000 + h
+        # the last history of a run uses small incompressible records and frequent commits so that the log wraps
+        wrap = h == n_hist - 1
         try:
-            rec = X.record(bindir, hseed, ops, wd)
+            rec = X.record(bindir, hseed, 40 if wrap else ops, wd, profile="wrap" if wrap else "crash")
         except C.Inconclusive as e:
             rep["inconclusive"].append({"case": f"history {hseed}", "reason": str(e)[:300]})
             continue
         _count(rep, "histories")
-        imgs = X.process_crash_images(rec, limit=limit, rng=rng)
+        _count(rep, "log_wraps_in_histories", X.count_wraps(rec["states"]))
+        _count(rep, "log_growths_in_histories", X.count_growths(rec["states"]))
+        imgs = X.process_crash_images(rec, limit=(min(limit, 120) if (limit and wrap) else limit), rng=rng)
         obs = X.probe(bindir, [i["bytes"] for i in imgs], os.path.join(wd, "probe"))
         for img, o in zip(imgs, obs):
             rep["evaluations"] += 1
@@ -95,7 +99,7 @@ def c02(pid, tier, seed, scratch):
                 rep["inconclusive"].append({"case": f"history {hseed} event {img['k']}", "reason": "probe watchdog"})
                 continue
             _violation(rep, _key("C02", verdict, ctx), f"history seed {hseed}, after event {img['k']} ({img['event']}): {verdict[1]}",
-                       {"mode": "crash", "property": "C02", "seed": hseed, "ops": ops, "event_index": img["k"], "ctx": ctx, "image_len": len(img["bytes"])})
+                       {"mode": "crash", "property": "C02", "seed": hseed, "ops": 40 if wrap else ops, "profile": "wrap" if wrap else "crash", "event_index": img["k"], "ctx": ctx, "image_len": len(img["bytes"])})
         if len(rep["samples"]) < 2 and imgs:
             i = imgs[len(imgs) // 2]
             rep["samples"].append({"history_seed": hseed, "operations": [s["op"] for s in rec["states"]], "images": len(imgs), "example_crash_point": {"event": i["k"], "ctx": i["ctx"], "image_bytes": len(i["bytes"])}})
@@ -111,7 +115,7 @@ def c02(pid, tier, seed, scratch):
 def replay_crash(pid, detail, scratch):
     """Re-record the history of a stored witness and probe the same crash point again."""
     bindir = C.build()
-    rec = X.record(bindir, detail["seed"], detail["ops"], scratch)
+    rec = X.record(bindir, detail["seed"], detail["ops"], scratch, profile=detail.get("profile", "crash"))
     if pid == "C02":
         imgs = [i for i in X.process_crash_images(rec) if i["k"] == detail["event_index"]]
         if not imgs:
